@@ -511,6 +511,8 @@ class MarkdownNormalizer(Renderer):
         # A Setext heading may span several lines but an ATX heading cannot,
         # so soft line breaks become spaces.
         children_content = re.sub(r"(?<!\\)\n", " ", children_content)
+        # A trailing run of `#` would be read as the closing sequence of an ATX heading.
+        children_content = re.sub(r"(?:^|(?<=\s))(#+)$", r"\\\1", children_content)
         self._in_heading = False
         self._current_inline_text = ""
         # If heading ends with hard break, don't add extra newline
